@@ -366,10 +366,10 @@ pub fn check(tier: Tier) -> i32 {
             }
             // all plans of 1 and 2 special-mode injections (two on one construct included)
             for (i, a) in sites.iter().enumerate() {
-                let ia = Inj { at: a.0, mode: a.1, c: 0x7601, drop_first: a.1 == SMode::BlockAlt && matches!(roles[a.0], Role::If), retract: false, encode_after: false };
+                let ia = Inj { at: a.0, mode: a.1, c: 0x7601, drop_first: a.1 == SMode::BlockAlt && matches!(roles[a.0], Role::If), retract: false, encode_after: false, finish: false };
                 plan_cases.push((prog.clone(), vec![ia.clone()]));
                 for b in sites.iter().skip(i + 1) {
-                    let ib = Inj { at: b.0, mode: b.1, c: 0x7602, drop_first: b.1 == SMode::BlockAlt && matches!(roles[b.0], Role::If), retract: false, encode_after: false };
+                    let ib = Inj { at: b.0, mode: b.1, c: 0x7602, drop_first: b.1 == SMode::BlockAlt && matches!(roles[b.0], Role::If), retract: false, encode_after: false, finish: false };
                     plan_cases.push((prog.clone(), vec![ia.clone(), ib]));
                 }
             }
